@@ -197,6 +197,24 @@ print(json.dumps(c18.run_in_process(case)))
 
 
 def run_in_process(case):
+    if case["mode"] == "nondet" and not case["shape"].get("cycle") and case["L"] <= 12 and not case.get("_one_outcome"):
+        # several outcomes of the random choices: the bound must hold on each of them
+        import random as _random
+        state = _random.getstate()
+        try:
+            outs = []
+            for k in range(6):
+                _random.seed(case["L"] * 1000 + k)
+                outs.append(run_in_process(dict(case, _one_outcome=True)))
+            kinds = {o["outcome"] for o in outs}
+            if len(kinds) == 1:
+                return outs[0]
+            odd = [o for o in outs if o["outcome"] not in ("ok", "recursion-error")]
+            if odd:
+                return odd[0]
+            return {"outcome": "differs-between-random-outcomes", "detail": "completes on some outcomes of the random choices and raises JSONPathRecursionError on others"}
+        finally:
+            _random.setstate(state)
     import jsonpath_rfc9535 as jp
 
     how = case.get("config", "class")
